@@ -82,15 +82,36 @@ class MemSession:
         self.consumers: dict[int, Any] = {}
         self.cinfo: dict[int, dict] = {}
         self.log: list[tuple[dict, str, str]] = []
+        self.script: list[dict] = []              # complete replayable op list (incl. start/advance)
         self.enq: dict[str, list[str]] = {}       # queue -> ids ever enqueued
         self.acked: dict[str, list[str]] = {}     # queue -> ids acked (call returned)
         self.held: dict[str, dict] = {}           # id -> {"c":, "q":, "cat":}
         self.msgs: dict[str, tuple] = {}          # id -> (key, payload, params) as last enqueued/requeued
         self.deliveries: list[dict] = []          # every successful consume
+        self.believes: list[tuple[int, str]] = []  # (consumer, id): handed out and not disposed of by the holder
+        self.bel_log: list[tuple[int, list]] = []  # (log index, believes after that op)
+        self.due: dict[str, int | None] = {}      # id -> key of the delayed dict at its last (re)enqueue
+        self.enq_at: dict[str, int] = {}          # id -> log index of its last (re)enqueue
+        self.returned_nonnormal: set[str] = set() # ids returned (reject/finish) out of a DELAYED/DEAD hold
+        self.stolen: set[str] = set()             # ids returned by ANOTHER consumer's finish()
+        self.returned: dict[str, int] = {}        # id -> log index of its latest return (reject/finish)
+        self.dead_events: list[dict] = []         # ids that newly appeared in `dead`, with the causing op
 
     # -- helpers ------------------------------------------------------------------------
     def _rec(self, op: dict, line: str, impl: Any) -> None:
         self.log.append((op, line, sx(impl) if not isinstance(impl, str) or isinstance(impl, Atom) else impl))
+        self.bel_log.append((len(self.log) - 1, list(self.believes)))
+        self.script.append({k: v for k, v in op.items() if k not in ("before", "held", "returned", "order", "got", "now")})
+
+    def _dead_ids(self, q: str) -> list[str]:
+        return [m.key.id_ for m in self.broker.queues[q].dead]
+
+    def _note_dead(self, q: str, before: list[str], op: dict) -> None:
+        for m in self.broker.queues[q].dead:
+            if m.key.id_ not in before:
+                self.dead_events.append({"id": m.key.id_, "op": op["op"], "op_id": op.get("id"), "at": CLOCK.us,
+                                         "start": op.get("now"), "ts": to_us(m.parameters.timestamp),
+                                         "ttl": td_us(m.parameters.ttl)})
 
     async def declare(self, q: str) -> None:
         await self.broker.queue_declare(q)
@@ -100,6 +121,7 @@ class MemSession:
 
     def advance(self, us: int) -> None:
         CLOCK.advance(us)
+        self.script.append({"op": "advance", "us": us})
 
     async def enqueue(self, q: str, id_: str, topic: str, payload: str, pd: dict, *, requeue: bool = False) -> None:
         key = RoutingKey(topic=topic, queue=q, priority=5, id_=id_)
@@ -112,6 +134,11 @@ class MemSession:
             await self.broker.enqueue(key, payload, params)
             self.enq[q].append(id_)
         self.msgs[id_] = (key, payload, params)
+        self.due[id_] = next((to_us(t) for t, ms in self.broker.queues[q].delayed.items()
+                              if any(m.key.id_ == id_ for m in ms)), None)
+        self.enq_at[id_] = len(self.log)
+        if requeue:
+            self.believes = [b for b in self.believes if b[1] != id_]
         op = {"op": "requeue" if requeue else "enqueue", "q": q, "id": id_, "topic": topic, "payload": payload,
               "params": pd, "now": now}
         self._rec(op, sx([A("mem.requeue" if requeue else "mem.enqueue"), q, msg_sx(key, payload, params), now]),
@@ -122,11 +149,13 @@ class MemSession:
         await cons.start()
         self.consumers[c] = cons
         self.cinfo[c] = {"q": q, "cat": cat, "topics": list(topics or [])}
+        self.script.append({"op": "start", "c": c, "q": q, "cat": cat, "topics": topics})
 
     async def consume(self, c: int, polls: int) -> Any:
         cons, info = self.consumers[c], self.cinfo[c]
         q = info["q"]
         now = CLOCK.us
+        dead_before = self._dead_ids(q)
         try:
             got = await asyncio.wait_for(cons.consume(), timeout=(polls - 0.5) / 1000.0)
         except asyncio.TimeoutError:
@@ -142,11 +171,16 @@ class MemSession:
             failed = elapsed // 1000
             res_m = msg_sx(key, payload, params)
             self.held[key.id_] = {"c": c, "q": q, "cat": info["cat"]}
+            self.believes.append((c, key.id_))
             self.deliveries.append({"id": key.id_, "c": c, "q": q, "cat": info["cat"], "at": CLOCK.us,
+                                    "log": len(self.log), "due": self.due.get(key.id_),
+                                    "returned_nonnormal": key.id_ in self.returned_nonnormal,
+                                    "stolen": key.id_ in self.stolen,
                                     "topic": key.topic, "ts": to_us(params.timestamp), "ttl": td_us(params.ttl),
                                     "next": to_us(params.delay.next_execution_time)})
         op = {"op": "consume", "c": c, "q": q, "cat": info["cat"], "topics": info["topics"], "now": now, "polls": polls,
               "got": None if got is None else got[0].id_}
+        self._note_dead(q, dead_before, op)
         self._rec(op, sx([A("mem.consume"), q, c, A(info["cat"]), info["topics"], now, polls]),
                   [A("res"), res_m, failed, snapshot(self.broker, q)])
         return got
@@ -158,7 +192,14 @@ class MemSession:
         h = self.held.pop(id_, None)
         if kind == "ack" and h is not None:
             self.acked[q].append(id_)
+        if h is not None:
+            self.believes = [b for b in self.believes if b[1] != id_]
+            if kind == "reject":
+                self.returned[id_] = len(self.log)
+                if h["cat"] != "NORMAL":
+                    self.returned_nonnormal.add(id_)
         op = {"op": kind, "q": q, "id": id_, "held": h, "before": before, "now": CLOCK.us}
+        self._note_dead(q, before["dead"], op)
         self._rec(op, sx([A("mem." + kind), q, id_]), snapshot(self.broker, q))
 
     async def finish(self, c: int) -> None:
@@ -171,9 +212,15 @@ class MemSession:
         order = after["simple"][n0:]
         returned = {i: self.held[i] for i in order if i in self.held}
         for i in order:
-            self.held.pop(i, None)
+            h = self.held.pop(i, None)
+            self.returned[i] = len(self.log)
+            if h is not None and h["cat"] != "NORMAL":
+                self.returned_nonnormal.add(i)
+            if h is not None and h["c"] != c:
+                self.stolen.add(i)
+        self.believes = [b for b in self.believes if b[0] != c]
         op = {"op": "finish", "c": c, "q": q, "order": order, "returned": returned, "before": before, "now": CLOCK.us}
-        self._rec(op, sx([A("mem.finish"), q, order]), snapshot(self.broker, q))
+        self._rec(op, sx([A("mem.finish"), q, c, order]), snapshot(self.broker, q))
 
 
 def gen_params(rng: Rng, now: int) -> dict:
@@ -188,6 +235,8 @@ def gen_params(rng: Rng, now: int) -> dict:
         pd["delay_until"] = now + rng.choice([-S, 0, 1, 500_000, 2 * S, 3600 * S])
     else:
         pd["defer_by"] = rng.choice([S, 2 * S, 10 * S])
+    if rng.random() < 0.15 and "next" not in pd:
+        pd["next"] = now + rng.choice([-S, 1, 300_000, 3 * S])    # back-off of a retried recurring/deferred job
     if rng.random() < 0.3:
         pd["ttl"] = rng.choice([S, 2 * S, 5 * S, 3600 * S])
     if rng.random() < 0.3:
@@ -206,7 +255,8 @@ async def random_session(rng: Rng, n_ops: int, profile: str = "mixed") -> MemSes
     for q in queues:
         await s.declare(q)
     ncons = rng.choice([1, 2, 3])
-    cat_choices = {"mixed": ["NORMAL", "NORMAL", "NORMAL", "DELAYED", "DEAD"], "normal": ["NORMAL"]}[profile]
+    cat_choices = {"mixed": ["NORMAL", "NORMAL", "NORMAL", "DELAYED", "DEAD"], "normal": ["NORMAL"],
+                   "ttl": ["NORMAL", "NORMAL", "NORMAL", "DEAD"]}[profile]
     for c in range(ncons):
         q = rng.choice(queues)
         cat = cat_choices[0] if c == 0 else rng.choice(cat_choices)
@@ -222,9 +272,12 @@ async def random_session(rng: Rng, n_ops: int, profile: str = "mixed") -> MemSes
         if r < 0.30 or nid == 0:
             q = rng.choice(queues)
             nid += 1
-            await s.enqueue(q, f"m{nid}", rng.choice(topics_pool), f"p{nid}", gen_params(rng, CLOCK.us))
+            pd = gen_params(rng, CLOCK.us)
+            if profile == "ttl" and rng.random() < 0.6:
+                pd["ttl"] = rng.choice([S, S, 2 * S, 5 * S])
+            await s.enqueue(q, f"m{nid}", rng.choice(topics_pool), f"p{nid}", pd)
         elif r < 0.42:
-            s.advance(rng.choice([0, 1, 999, 1000, 500_000, S, S + 1, 2 * S, 5 * S, 3600 * S]))
+            s.advance(rng.choice([0, 1, 999, 1000, 500_000, S - 1001, S - 1, S, S + 1, 2 * S, 5 * S, 3600 * S]))
         elif r < 0.70 and live:
             c = rng.choice(sorted(live))
             await s.consume(c, rng.choice([1, 1, 2, 3, 5, 8]))
@@ -252,3 +305,53 @@ async def random_session(rng: Rng, n_ops: int, profile: str = "mixed") -> MemSes
             # ill-behaved stream (C01 only) sends them and compares no-op behaviour
             s.advance(1)
     return s
+
+
+def compare_with_model(s: MemSession, model, res, label: str, extra_lines: list[str] | None = None):
+    """Correspondence: every logged call's snapshot/result vs the Lean code-model.
+    Returns (index of the first divergence or None, answers to extra_lines)."""
+    lines = [ln for _, ln, _ in s.log]
+    extra_lines = extra_lines or []
+    answers = model.ask(lines + extra_lines)
+    res.extra["model_requests"] = res.extra.get("model_requests", 0) + len(answers)
+    first_bad = None
+    ops_json = [{k: v for k, v in o.items() if k != "before"} for o, _, _ in s.log]
+    for idx, ((op, ln, impl), ans) in enumerate(zip(s.log, answers)):
+        if ans != impl:
+            first_bad = idx
+            res.bad("corr", "Mem code-model vs InMemoryMessageBroker (snapshot/result after a call)",
+                    case={"label": label, "ops": ops_json[: idx + 1], "request": ln}, observed=impl, expected=ans)
+            break
+    return first_bad, answers[len(lines):], ops_json
+
+
+async def scripted_session(script: list[dict]) -> MemSession:
+    """Execute a recorded op list (corpus witness or replay)."""
+    s = MemSession()
+    for op in script:
+        k = op["op"]
+        if k == "declare":
+            await s.declare(op["q"])
+        elif k == "start":
+            await s.start(op["c"], op["q"], op["cat"], op.get("topics"))
+        elif k == "advance":
+            s.advance(op["us"])
+        elif k == "enqueue":
+            await s.enqueue(op["q"], op["id"], op["topic"], op["payload"], op["params"])
+        elif k == "requeue":
+            await s.enqueue(op["q"], op["id"], op["topic"], op["payload"], op["params"], requeue=True)
+        elif k == "consume":
+            await s.consume(op["c"], op["polls"])
+        elif k in ("ack", "nack", "reject"):
+            await s.terminal(k, op["q"], op["id"])
+        elif k == "finish":
+            await s.finish(op["c"])
+        else:
+            raise ValueError(f"unknown op {k}")
+    return s
+
+
+def load_corpus(name: str) -> list[dict]:
+    import json
+    from common import VERIF
+    return json.loads((VERIF / "corpus" / name).read_text())["script"]
